@@ -42,17 +42,17 @@ ENGINES = [
 
 TEXT = dict(
     design_ref="DESIGN.md section 4, C16",
-    technique="Coq proof of the change-record parser, directory pruning and refusal paths + fault enumeration on the real directory",
-    text=("Proof (all byte strings, all records, all states, all element types): C16_record_roundtrip, C16_prefix (every strict "
-          "prefix of a valid record is rejected with an error), C16_truncation_of_any_accepted_input, C16_lenfields (checked "
-          "arithmetic with the 2^64 wrap explicit), C16_parser_total, C16_dir (after a commit at most k records, the new one "
-          "present, nothing above the stamp committed from: abandoned futures are gone), C16_fail_single (EVERY refused "
-          "rollback leaves the whole state unchanged), C16_fail_before / C16_rollback_before_ok (rollback_before stands "
-          "exactly where n successful single rollbacks lead), C16_missing_record_refused, C16_truncated_record_refused, "
-          "C16_rollback_never_panics, C16_rollback_before_never_panics, C16_retention_zero_disables_recording.  C16_count is "
-          "bounded (retention 0..6, 10; up to 8 commits); C16_only_committed needs C04_rollback_step (bounded there)."),
+    technique="Coq proof of the change-record parser, directory pruning, refusal paths and retention count + fault enumeration on the real directory",
+    text=("Proof (all byte strings, records, states, element types): C16_record_roundtrip, C16_prefix, "
+          "C16_truncation_of_any_accepted_input, C16_trailing_bytes_rejected, C16_lenfields (an accepted input is consumed "
+          "exactly), C16_parser_total, C16_dir (at most k records, nothing above the stamp committed from: abandoned futures "
+          "are gone), C16_fail_single (EVERY refused rollback leaves the whole state unchanged), C16_fail_before, "
+          "C16_rollback_before_ok, C16_missing_record_refused, C16_truncated_record_refused, never-panics, "
+          "C16_retention_zero_disables_recording, and UNBOUNDED C16_count: after any strict run of commits with retention "
+          "k > 0 exactly min(k, commits) successive rollbacks succeed, each landing on a retained committed snapshot "
+          "(C04_chain), and the next is refused with the vector unchanged."),
     note=("Trusted: Coq kernel; extraction and the OCaml driver; the Rust harness.  The Rust code is modelled, not verified.  "
-          "Remaining finding: records altered into another structurally consistent record are applied (no checksum, no end-of-input check)."),
+          "Known finding: a record altered into another structurally consistent record (prev_stored_len 0/1/+-1) is applied (no checksum)."),
 )
 
 
